@@ -7,14 +7,15 @@ namespace SqlObjVerif.Conc
 
 /-! ## liveness of weakly referenced objects -/
 /-- a thread or the environment references the object -/
-def Held (s : State) (o : Obj) : Prop := o ∈ s.refs ∨ o ∈ s.pins
+def Held (s : State) (o : Obj) : Prop := o ∈ s.refs ∨ o ∈ s.pins ∨ o ∈ ovals s.olds
 
 theorem aliveIn_iff (refs pins : List Obj) (m : AMap) (o : Obj) :
     aliveIn refs pins m o = true ↔ o ∈ refs ∨ o ∈ pins ∨ o ∈ avals m := by
   simp [aliveIn, or_assoc]
 
-theorem alive_iff (s : State) (o : Obj) : alive s o = true ↔ o ∈ s.refs ∨ o ∈ s.pins ∨ o ∈ avals s.strong :=
-  aliveIn_iff _ _ _ _
+theorem alive_iff (s : State) (o : Obj) :
+    alive s o = true ↔ o ∈ s.refs ∨ (o ∈ s.pins ∨ o ∈ ovals s.olds) ∨ o ∈ avals s.strong := by
+  unfold alive; rw [aliveIn_iff]; simp [List.mem_append]
 
 theorem mem_avals_of_aget (m : AMap) (i : Id) (o : Obj) (h : aget m i = some o) : o ∈ avals m := by
   induction m with
@@ -60,9 +61,71 @@ theorem mem_avals_adel (m : AMap) (i : Id) (v : Obj) (h : v ∈ avals (adel m i)
 theorem mem_avals_aset_self (m : AMap) (i : Id) (o : Obj) : o ∈ avals (aset m i o) :=
   mem_avals_of_aget _ i o (by rw [aget_aset]; simp)
 
+/-! ### abandoned dicts -/
+/-- the abandoned dicts that still have aliases -/
+def odicts (olds : List (Nat × AMap × Nat)) : List AMap := olds.map fun e => e.2.1
+
+theorem mem_ovals (olds : List (Nat × AMap × Nat)) (o : Obj) : o ∈ ovals olds ↔ ∃ m ∈ odicts olds, o ∈ avals m := by
+  induction olds with
+  | nil => simp [ovals, odicts]
+  | cons e r ih =>
+    have : ovals (e :: r) = avals e.2.1 ++ ovals r := by simp [ovals]
+    rw [this, List.mem_append, ih]
+    simp only [odicts, List.map_cons, List.mem_cons]
+    constructor
+    · rintro (h | ⟨m, hm, ho⟩)
+      · exact ⟨_, Or.inl rfl, h⟩
+      · exact ⟨m, Or.inr hm, ho⟩
+    · rintro ⟨m, hm | hm, ho⟩
+      · exact Or.inl (hm ▸ ho)
+      · exact Or.inr ⟨m, hm, ho⟩
+
+theorem mem_odicts_orelease (olds : List (Nat × AMap × Nat)) (g : Nat) (m : AMap)
+    (h : m ∈ odicts (orelease olds g)) : m ∈ odicts olds := by
+  induction olds with
+  | nil => simpa [orelease] using h
+  | cons e r ih =>
+    obtain ⟨g', m', c⟩ := e
+    simp only [orelease] at h
+    split at h
+    · split at h
+      · simp only [odicts, List.map_cons, List.mem_cons] at h ⊢; exact Or.inr h
+      · simpa [odicts] using h
+    · simp only [odicts, List.map_cons, List.mem_cons] at h ⊢ ih
+      rcases h with h | h
+      · exact Or.inl h
+      · exact Or.inr (ih h)
+
+theorem mem_odicts_of_oget (olds : List (Nat × AMap × Nat)) (g : Nat) (m : AMap) (h : oget olds g = some m) :
+    m ∈ odicts olds := by
+  induction olds with
+  | nil => simp [oget] at h
+  | cons e r ih =>
+    obtain ⟨g', m', c⟩ := e
+    simp only [oget] at h
+    simp only [odicts, List.map_cons, List.mem_cons] at ⊢ ih
+    split at h
+    · simp at h; exact Or.inl h.symm
+    · exact Or.inr (ih h)
+
+theorem mem_ovals_orelease (olds : List (Nat × AMap × Nat)) (g : Nat) (o : Obj) (h : o ∈ ovals (orelease olds g)) :
+    o ∈ ovals olds := by
+  rw [mem_ovals] at h ⊢
+  obtain ⟨m, hm, ho⟩ := h
+  exact ⟨m, mem_odicts_orelease _ _ _ hm, ho⟩
+
+theorem mem_ovals_of_oget (olds : List (Nat × AMap × Nat)) (g : Nat) (m : AMap) (i : Id) (o : Obj)
+    (h : oget olds g = some m) (hi : aget m i = some o) : o ∈ ovals olds := by
+  rw [mem_ovals]; exact ⟨m, mem_odicts_of_oget _ _ _ h, mem_avals_of_aget _ _ _ hi⟩
+
+theorem odicts_append (a b : List (Nat × AMap × Nat)) : odicts (a ++ b) = odicts a ++ odicts b := by
+  simp [odicts]
+
+
+
 /-- the thread is inside a `create`, before or after its lock-free `cache[id] = obj` -/
 def pcCreate : Pc → Bool
-  | .insert _ | .crSet _ _ | .crSelect _ _ => true
+  | .insert _ | .crSetL _ _ | .crSet _ _ _ | .crSelect _ _ => true
   | .csGet k | .csSet k | .ccTest k | .ccRead k | .ccWrite k _ | .ccReset k | .cuAcq k | .cuWeakKeys k
   | .cuWeakChk k _ | .cuStrongKeys k | .cuStrongGet k _ _ | .cuStrongDel k _ _ _ | .cuWeakSet k _ _ _ | .cuRel k
   | .cuWeakPop k _ _ _ =>
@@ -107,9 +170,9 @@ def pcEAk : Pc → Bool
 /-- what makes the lock-free steps of thread `t` harmless: its `cache[id] = obj` (of `created`) hits an id that
     is in neither map, that no lock holder has just probed, while nobody iterates `cache`; its INSERT is of a new id -/
 def CrOK (s : State) (t : Tid) : Prop :=
-  (∀ i o, (s.th t).pc = .crSet i o →
+  (∀ i o g, (s.th t).pc = .crSet i o g →
     aget s.strong i = none ∧ aget s.weak i = none ∧ (∀ o', s.transit ≠ some (i, o')) ∧
-    (∀ u, gid (s.th u).pc ≠ some i) ∧ (∀ u, pcEAk (s.th u).pc = false) ∧ s.dc = true) ∧
+    (∀ u, gid (s.th u).pc ≠ some i) ∧ (∀ u, pcEAk (s.th u).pc = false) ∧ s.dc = true ∧ g = s.gen) ∧
   (∀ i, (s.th t).pc = .insert i → i ∉ s.db)
 
 /-- what the lock holder has learnt about the maps and still relies on -/
@@ -130,7 +193,7 @@ def know (s : State) : Pc → Prop
 
 /-- instances the thread holds a strong reference to at this pc (locals `val`, `obj`, `self`) -/
 def pcRefs : Pc → List Obj
-  | .relRel _ o | .weakDel _ o | .strongSet _ o | .relSet _ o | .put _ o | .finRel _ o | .crSet _ o
+  | .relRel _ o | .weakDel _ o | .strongSet _ o | .relSet _ o | .put _ o | .finRel _ o | .crSetL _ o | .crSet _ o _
   | .crSelect _ o => [o]
   | .csGet k | .csSet k | .ccTest k | .ccRead k | .ccWrite k _ | .ccReset k | .cuAcq k | .cuWeakKeys k
   | .cuWeakChk k _ | .cuStrongKeys k | .cuStrongGet k _ _ | .cuStrongDel k _ _ _ | .cuWeakSet k _ _ _ | .cuRel k
@@ -150,6 +213,7 @@ structure BInv (s : State) : Prop where
   outs : ∀ t i o, Out.obj i o ∈ (s.th t).outs → Reach s i o
   refsPc : ∀ t, ∀ o ∈ pcRefs (s.th t).pc, o ∈ s.refs
   refsOuts : ∀ t i o, Out.obj i o ∈ (s.th t).outs → o ∈ s.refs
+  oreach : ∀ m ∈ odicts s.olds, ∀ i o, aget m i = some o → Reach s i o
 
 theorem getElem_aget (m : AMap) (hk : (akeys m).Nodup) (j : Nat) (k : Id) (v : Obj) (h : m[j]? = some (k, v)) :
     aget m k = some v := by
@@ -243,34 +307,38 @@ theorem nocreate_step (s s' : State) (t : Tid) (h : NoCreate s) (hs : step s t =
 /-! ### effects on the maps -/
 theorem nonholder_effect2 (s s' : State) (t : Tid) (hs : step s t = some s') (hh : holds (s.th t).pc = false) :
     s'.stale = s.stale ∧ s'.transit = s.transit ∧
-    ((s'.weak = s.weak ∧ (s'.strong = s.strong ∨ ∃ i o, (s.th t).pc = .crSet i o ∧ s'.strong = aset s.strong i o)) ∨
-     (∃ i o, (s.th t).pc = .crSet i o ∧ s.dc = false)) := by
+    ((s'.weak = s.weak ∧
+       (s'.strong = s.strong ∨ ∃ i o g, (s.th t).pc = .crSet i o g ∧ s'.strong = aset s.strong i o)) ∨
+     (∃ i o g, (s.th t).pc = .crSet i o g ∧ s.dc = false)) := by
   step_cases <;> simp only [hpc, holds] at hh <;> simp_all <;> exact Or.inr ⟨_, _, ⟨rfl, rfl⟩, rfl⟩
 
 /-- with `CrOK` (a lock-free `created` only runs with doCache = True) `expiredCache` is left alone -/
 theorem nonholder_effect3 (s s' : State) (t : Tid) (hn : CrOK s t) (hs : step s t = some s')
     (hh : holds (s.th t).pc = false) :
     s'.weak = s.weak ∧ s'.stale = s.stale ∧ s'.transit = s.transit ∧
-    (s'.strong = s.strong ∨ ∃ i o, (s.th t).pc = .crSet i o ∧ s'.strong = aset s.strong i o) := by
+    (s'.strong = s.strong ∨ ∃ i o g, (s.th t).pc = .crSet i o g ∧ s'.strong = aset s.strong i o) := by
   obtain ⟨e3, e4, e⟩ := nonholder_effect2 s s' t hs hh
-  rcases e with ⟨e2, e1⟩ | ⟨i, o, hp, hd⟩
+  rcases e with ⟨e2, e1⟩ | ⟨i, o, g, hp, hd⟩
   · exact ⟨e2, e3, e4, e1⟩
-  · have := (hn.1 i o hp).2.2.2.2.2; simp [hd] at this
+  · have := (hn.1 i o g hp).2.2.2.2.2.1; simp [hd] at this
 
-/-- … and to `refs` it only adds an instance that is in `cache`, or a brand new one -/
-theorem nonholder_refs (s s' : State) (t : Tid) (hs : step s t = some s') (hh : holds (s.th t).pc = false) :
-    s'.pins = s.pins ∧ ∀ o, o ∈ s'.refs → o ∈ s.refs ∨ o ∈ s.pins ∨ o ∈ avals s.strong ∨ o = s.fresh := by
-  step_cases <;> simp only [hpc, holds] at hh <;> simp <;>
-    (try (intro o ho; rcases ho with ho | ho)) <;> simp_all <;>
-    first
-    | exact Or.inr (Or.inr (Or.inl (mem_avals_of_aget _ _ _ ‹_›)))
-    | (have := (alive_iff s _).1 ‹_›; grind)
-    | skip
+/-- … to `refs` it only adds an instance that is alive, or a brand new one; and (with `CrOK`: a lock-free
+    `created` never writes through a stale alias) the abandoned dicts only lose aliases -/
+theorem nonholder_refs (s s' : State) (t : Tid) (hn : CrOK s t) (hs : step s t = some s')
+    (hh : holds (s.th t).pc = false) :
+    s'.pins = s.pins ∧ (∀ o, o ∈ s'.refs → o ∈ s.refs ∨ alive s o = true ∨ o = s.fresh) ∧
+    (∀ o, o ∈ ovals s'.olds → o ∈ ovals s.olds) := by
+  have hcr := hn.1
+  have h1 := mem_ovals_orelease s.olds
+  have h2 := mem_ovals_of_oget s.olds
+  have h3 := mem_avals_of_aget
+  have h4 := alive_iff s
+  step_cases <;> simp only [hpc, holds] at hh hcr <;> simp <;> grind
 
 theorem crok_of_nocreate (s : State) (t : Tid) (hn : NoCreate s) : CrOK s t := by
   have h := (hn t).1
   constructor
-  · intro i o hp; rw [hp] at h; simp [pcCreate] at h
+  · intro i o g hp; rw [hp] at h; simp [pcCreate] at h
   · intro i hp; rw [hp] at h; simp [pcCreate] at h
 
 theorem trPc_holds (pc : Pc) (x : Id × Obj) (h : trPc pc = some x) : holds pc = true := by
@@ -291,11 +359,12 @@ theorem livePc_afterCaches (s : State) (t : Tid) (k : K) : livePc ((afterCaches 
 
 /-- what a lock holder knows survives the lock-free steps of the other threads: `expiredCache` untouched,
     `cache` at most extended at an id nobody has probed (outside any iteration) by an instance its creator
-    holds, `refs` extended only by an instance that is in `cache` or brand new -/
+    holds, `refs` extended only by an instance that is alive or brand new, abandoned dicts only shrinking -/
 theorem know_stable (s s' : State) (pc : Pc) (hw : s'.weak = s.weak) (hp : s'.pins = s.pins)
     (hst : s'.strong = s.strong ∨ ∃ i o, s'.strong = aset s.strong i o ∧ aget s.strong i = none ∧
       gid pc ≠ some i ∧ pcEAk pc = false ∧ o ∈ s.refs)
-    (hrefs : ∀ o, o ∈ s'.refs → o ∈ s.refs ∨ o ∈ s.pins ∨ o ∈ avals s.strong ∨ o = s.fresh)
+    (hrefs : ∀ o, o ∈ s'.refs → o ∈ s.refs ∨ alive s o = true ∨ o = s.fresh)
+    (holds' : ∀ o, o ∈ ovals s'.olds → o ∈ ovals s.olds)
     (hwb : ∀ o ∈ avals s.weak, o < s.fresh)
     (h : know s pc) : know s' pc := by
   have hal : ∀ (k : Id) (o : Obj), aget s.weak k = some o → alive s o = false → alive s' o = false := by
@@ -305,16 +374,16 @@ theorem know_stable (s s' : State) (pc : Pc) (hw : s'.weak = s.weak) (hp : s'.pi
     | false => rfl
     | true =>
       exfalso
-      have hd' : ¬ (o ∈ s.refs ∨ o ∈ s.pins ∨ o ∈ avals s.strong) := by
+      have hd' : ¬ (o ∈ s.refs ∨ (o ∈ s.pins ∨ o ∈ ovals s.olds) ∨ o ∈ avals s.strong) := by
         intro h'; rw [← alive_iff] at h'; simp [hd] at h'
       rw [alive_iff, hp] at hx
-      rcases hx with hx | hx | hx
-      · rcases hrefs o hx with h1 | h1 | h1 | h1
+      rcases hx with hx | (hx | hx) | hx
+      · rcases hrefs o hx with h1 | h1 | h1
         · exact hd' (Or.inl h1)
-        · exact hd' (Or.inr (Or.inl h1))
-        · exact hd' (Or.inr (Or.inr h1))
+        · simp [hd] at h1
         · rw [h1] at hlt; exact Nat.lt_irrefl _ hlt
-      · exact hd' (Or.inr (Or.inl hx))
+      · exact hd' (Or.inr (Or.inl (Or.inl hx)))
+      · exact hd' (Or.inr (Or.inl (Or.inr (holds' o hx))))
       · rcases hst with e | ⟨i, o', e, _, _, _, ho'⟩
         · rw [e] at hx; exact hd' (Or.inr (Or.inr hx))
         · rw [e] at hx
@@ -332,7 +401,7 @@ theorem know_stable (s s' : State) (pc : Pc) (hw : s'.weak = s.weak) (hp : s'.pi
       | exact h
       | (simp_all [aget_aset]; done)
       | (have := hal _ _ h.2.1 h.2.2; simp_all [aget_aset]; grind)
-      | (have := hal _ _ h.1 h.2; simp_all [aget_aset])
+      | (have := hal _ _ h.1 h.2; simp_all)
       | (simp_all [aget_aset]; grind)
 
 theorem know_nonholds (s : State) (pc : Pc) (h : holds pc = false) : know s pc := by
@@ -351,16 +420,18 @@ theorem transit_none (s : State) (t : Tid) (ha : AInv s) (hb : BInv s) (hl : s.l
 
 theorem not_alive (s : State) (o : Obj) (h : alive s o = false) (hh : Held s o) : False := by
   have : alive s o = true := by
-    rw [alive_iff]; rcases hh with h1 | h1
+    rw [alive_iff]; rcases hh with h1 | h1 | h1
     · exact Or.inl h1
-    · exact Or.inr (Or.inl h1)
+    · exact Or.inr (Or.inl (Or.inl h1))
+    · exact Or.inr (Or.inl (Or.inr h1))
   simp [h] at this
 
-theorem not_aliveIn (refs pins : List Obj) (m : AMap) (o : Obj) (h : ¬ aliveIn refs pins m o = true)
-    (hh : o ∈ refs ∨ o ∈ pins) : False := by
-  apply h; rw [aliveIn_iff]; rcases hh with h1 | h1
+theorem not_aliveIn (s : State) (m : AMap) (o : Obj) (h : ¬ aliveIn s.refs (s.pins ++ ovals s.olds) m o = true)
+    (hh : Held s o) : False := by
+  apply h; rw [aliveIn_iff]; rcases hh with h1 | h1 | h1
   · exact Or.inl h1
-  · exact Or.inr (Or.inl h1)
+  · exact Or.inr (Or.inl (List.mem_append.2 (Or.inl h1)))
+  · exact Or.inr (Or.inl (List.mem_append.2 (Or.inr h1)))
 
 /-- an instance somebody references stays reachable (or expired, or in transit) across every action -/
 theorem reach_step (s s' : State) (t : Tid) (ha : AInv s) (hb : BInv s) (hn : CrOK s t)
@@ -368,9 +439,9 @@ theorem reach_step (s s' : State) (t : Tid) (ha : AInv s) (hb : BInv s) (hn : Cr
   cases hh : holds (s.th t).pc
   · obtain ⟨e2, e3, e4, e1⟩ := nonholder_effect3 s s' t hn hs hh
     unfold Reach at *; rw [e2, e3, e4]
-    rcases e1 with e1 | ⟨i', o', hp, e1⟩ <;> rw [e1]
+    rcases e1 with e1 | ⟨i', o', g', hp, e1⟩ <;> rw [e1]
     · exact hr
-    · have := (hn.1 i' o' hp).1
+    · have := (hn.1 i' o' g' hp).1
       grind [aget_aset]
   · have hl := (ha.holder t).1 hh
     have hk := hb.know t
@@ -379,15 +450,15 @@ theorem reach_step (s s' : State) (t : Tid) (ha : AInv s) (hb : BInv s) (hn : Cr
     have hu := hb.uniq
     have ht1 := hb.tr1
     have hsk := ha.skeys
-    have hna := not_alive s o
-    have hnb := not_aliveIn s.refs s.pins
-    unfold Held at hal hna
+    have hna := fun h => not_alive s o h hal
+    have hnb := fun m h => not_aliveIn s m o h hal
     unfold Reach at *
     step_cases <;> simp only [hpc, holds] at hh <;> (try cases hh) <;> simp only [hpc, know, trPc] at hk htn ht2 <;>
       simp <;> grind [aget_aset, aget_adel, aget_nil]
 
-theorem held_step (s s' : State) (t : Tid) (hs : step s t = some s') (o : Obj) (h : Held s o) : Held s' o := by
-  unfold Held at *
+/-- references of threads and of the environment are never given up -/
+theorem held_step (s s' : State) (t : Tid) (hs : step s t = some s') (o : Obj) (h : o ∈ s.refs ∨ o ∈ s.pins) :
+    o ∈ s'.refs ∨ o ∈ s'.pins := by
   step_cases <;> simp <;> grind
 
 /-! ### outcomes only grow by what the thread was about to return -/
@@ -410,9 +481,10 @@ theorem afterCC_outs_self (s : State) (t : Tid) (k : K) :
 
 theorem outs_effect (s s' : State) (t : Tid) (hs : step s t = some s') (i : Id) (o : Obj)
     (h : Out.obj i o ∈ (s'.th t).outs) :
-    Out.obj i o ∈ (s.th t).outs ∨ ((s.th t).pc = .probe i ∧ aget s.strong i = some o) ∨
+    Out.obj i o ∈ (s.th t).outs ∨ ((s.th t).pc = .probe i s.gen ∧ aget s.strong i = some o) ∨
       livePc (s.th t).pc = some (i, o) ∨
-      ((s.th t).pc = .nProbe i ∧ aget s.weak i = some o ∧ alive s o = true) := by
+      ((s.th t).pc = .nProbe i ∧ aget s.weak i = some o ∧ alive s o = true) ∨
+      (∃ g m, (s.th t).pc = .probe i g ∧ g ≠ s.gen ∧ oget s.olds g = some m ∧ aget m i = some o) := by
   step_cases <;> simp only [hpc, livePc] <;>
     (try (rcases releaseFinish_outs_self _ t _ with e | e <;> rw [e] at h)) <;>
     (try (rcases afterCC_outs_self _ t _ with e | e <;> rw [e] at h)) <;>
@@ -430,9 +502,9 @@ theorem binv_uniq (s s' : State) (t : Tid) (ha : AInv s) (hb : BInv s) (hn : CrO
   cases hh : holds (s.th t).pc
   · obtain ⟨e2, _, _, e1⟩ := nonholder_effect3 s s' t hn hs hh
     rw [e2]
-    rcases e1 with e1 | ⟨i', o', hp, e1⟩ <;> rw [e1]
+    rcases e1 with e1 | ⟨i', o', g', hp, e1⟩ <;> rw [e1]
     · exact hb.uniq
-    · have := (hn.1 i' o' hp).2.1
+    · have := (hn.1 i' o' g' hp).2.1
       have hu := hb.uniq
       grind [aget_aset]
   · have hl := (ha.holder t).1 hh
@@ -452,7 +524,7 @@ def pcNc : Pc → Bool
 
 /-- pcs of the doCache = True path of `get` (the only ones that lead to a `cache[id] = val` not guarded by `dc`) -/
 def pcDc : Pc → Bool
-  | .probe _ | .acq _ | .relook _ | .weakGet _ | .weakDel _ _ | .strongSet _ _ => true
+  | .probeL _ | .probe _ _ | .acq _ | .relook _ | .weakGet _ | .weakDel _ _ | .strongSet _ _ => true
   | .ccTest k | .ccRead k | .ccWrite k _ | .ccReset k | .cuAcq k | .cuWeakKeys k
   | .cuWeakChk k _ | .cuStrongKeys k | .cuStrongGet k _ _ | .cuStrongDel k _ _ _ | .cuWeakSet k _ _ _ | .cuRel k
   | .cuWeakPop k _ _ _ =>
@@ -569,7 +641,7 @@ theorem binv_know_self (s s' : State) (t : Tid) (ha : AInv s) (hb : BInv s) (hm 
     | exact know_nonholds _ _ (afterCaches_holds _ _ _)
     | (simp only [goto_pc_self]; exact know_cuWeakNext _ _ _)
     | (simp only [goto_pc_self]; exact know_cuStrongNext _ _ _)
-    | (simp only [goto_pc_self, know, alive, goto_strong, goto_weak, goto_refs, goto_pins] at hk ⊢ <;>
+    | (simp only [goto_pc_self, know, alive, goto_strong, goto_weak, goto_refs, goto_pins, goto_olds] at hk ⊢ <;>
         grind [aget_aset, aget_adel, aget_nil, alive])
 
 theorem livePc_cuWeakNext (k : K) (l : List Id) : livePc (cuWeakNext k l) = none := by cases l <;> rfl
@@ -577,11 +649,12 @@ theorem livePc_cuStrongNext (k : K) (l : List Id) : livePc (cuStrongNext k l) = 
 theorem trPc_cuWeakNext (k : K) (l : List Id) : trPc (cuWeakNext k l) = none := by cases l <;> rfl
 theorem trPc_cuStrongNext (k : K) (l : List Id) : trPc (cuStrongNext k l) = none := by cases l <;> rfl
 
-theorem binv_live_self (s s' : State) (t : Tid) (hb : BInv s)
+theorem binv_live_self (s s' : State) (t : Tid) (hb : BInv s) (hn : CrOK s t)
     (hs : step s t = some s') (i : Id) (o : Obj) (h : livePc (s'.th t).pc = some (i, o)) : Reach s' i o := by
   have hk := hb.know t
+  have hcr := hn.1
   unfold Reach
-  step_cases <;>
+  step_cases <;> simp only [hpc] at hcr <;>
     simp only [goto_pc_self, livePc_cuWeakNext, livePc_cuStrongNext, livePc_finish, livePc_releaseFinish,
       livePc_afterCC, livePc_afterCaches] at h <;>
     simp_all [livePc, aget_aset]
@@ -612,9 +685,9 @@ theorem binv_tr1 (s s' : State) (t : Tid) (ha : AInv s) (hb : BInv s) (hn : CrOK
     obtain ⟨h1, h2, t', h3⟩ := hb.tr1 i o htr
     rw [e2]
     have h1' : aget s'.strong i = none := by
-      rcases e1 with e1 | ⟨i', o', hp, e1⟩ <;> rw [e1]
+      rcases e1 with e1 | ⟨i', o', g', hp, e1⟩ <;> rw [e1]
       · exact h1
-      · have := (hn.1 i' o' hp).2.2.1
+      · have := (hn.1 i' o' g' hp).2.2.1
         grind [aget_aset]
     refine ⟨h1', h2, t', ?_⟩
     have : t' ≠ t := by
@@ -639,7 +712,7 @@ def kObj : K → List Obj
 
 /-- the objects a pc carries that it will still write into a map -/
 def pcObjs : Pc → List Obj
-  | .weakDel _ o | .strongSet _ o | .put _ o | .crSet _ o | .eaSetWeak _ o _ _ => [o]
+  | .weakDel _ o | .strongSet _ o | .put _ o | .crSetL _ o | .crSet _ o _ | .eaSetWeak _ o _ _ => [o]
   | .cuStrongDel k _ o _ | .cuWeakSet k _ o _ => o :: kObj k
   | .csGet k | .csSet k | .ccTest k | .ccRead k | .ccWrite k _ | .ccReset k | .cuAcq k | .cuWeakKeys k
   | .cuWeakChk k _ | .cuStrongKeys k | .cuStrongGet k _ _ | .cuRel k | .cuWeakPop k _ _ _ => kObj k
@@ -705,8 +778,15 @@ theorem refs_mono (s s' : State) (t : Tid) (hs : step s t = some s') (o : Obj) (
   step_cases <;> simp <;> simp [h]
 
 theorem probe_refs (s s' : State) (t : Tid) (hs : step s t = some s') (i : Id) (o : Obj)
-    (hp : (s.th t).pc = .probe i) (hg : aget s.strong i = some o) : o ∈ s'.refs := by
-  simp only [step, hp, hg] at hs
+    (hp : (s.th t).pc = .probe i s.gen) (hg : aget s.strong i = some o) :
+    o ∈ s'.refs ∧ s'.strong = s.strong ∧ s'.weak = s.weak ∧ s'.stale = s.stale ∧ s'.transit = s.transit := by
+  simp only [step, hp, hg, if_true] at hs
+  injection hs with hs; subst hs; simp
+
+theorem stale_probe_step (s s' : State) (t : Tid) (hs : step s t = some s') (i : Id) (o : Obj) (g : Nat) (m : AMap)
+    (hp : (s.th t).pc = .probe i g) (hne : g ≠ s.gen) (hm : oget s.olds g = some m) (hg : aget m i = some o) :
+    o ∈ s'.refs ∧ s'.strong = s.strong ∧ s'.weak = s.weak ∧ s'.stale = s.stale ∧ s'.transit = s.transit := by
+  simp only [step, hp, hne, hm, hg, if_false] at hs
   injection hs with hs; subst hs; simp
 
 theorem pcRefs_entry (dc c : Bool) (op : Op) : pcRefs (entry dc c op) = [] := by
@@ -740,6 +820,26 @@ theorem nprobe_step (s s' : State) (t : Tid) (hs : step s t = some s') (i : Id) 
   simp only [step, hp, hg, hal] at hs
   injection hs with hs; subst hs; simp
 
+theorem odicts_step (s s' : State) (t : Tid) (hn : CrOK s t) (hs : step s t = some s') (m : AMap)
+    (h : m ∈ odicts s'.olds) : m ∈ odicts s.olds ∨ ((s.th t).pc = .eaSwap ∧ m = s.strong) := by
+  have hcr := hn.1
+  have h1 := mem_odicts_orelease s.olds
+  step_cases <;> simp only [hpc] at hcr <;> simp at h <;>
+    first
+    | exact Or.inl h
+    | (simp_all; done)
+    | (split at h
+       · exact Or.inl h
+       · rw [odicts_append, List.mem_append] at h
+         rcases h with h | h
+         · exact Or.inl h
+         · simp [odicts] at h; exact Or.inr ⟨hpc, h⟩)
+    | (rw [odicts_append, List.mem_append] at h
+       rcases h with h | h
+       · exact Or.inl h
+       · simp [odicts] at h; exact Or.inr ⟨hpc, h⟩)
+    | grind
+
 theorem binv_step (s s' : State) (t : Tid) (ha : AInv s) (hb : BInv s) (hf : FInv s) (hm : MdInv s) (hn : CrOK s t)
     (hs : step s t = some s') : BInv s' := by
   have ht : ∀ u, holds (s.th u).pc = true → u ≠ t → holds (s.th t).pc = false := by
@@ -750,7 +850,9 @@ theorem binv_step (s s' : State) (t : Tid) (ha : AInv s) (hb : BInv s) (hf : FIn
   have hlive : ∀ u i o, livePc (s.th u).pc = some (i, o) → Held s o := fun u i o h =>
     Or.inl (hb.refsPc u o (livePc_pcRefs _ i o h))
   have houts : ∀ u i o, Out.obj i o ∈ (s.th u).outs → Held s o := fun u i o h => Or.inl (hb.refsOuts u i o h)
-  refine ⟨binv_uniq s s' t ha hb hn hs, binv_tr1 s s' t ha hb hn hs, ?_, ?_, ?_, ?_, ?_, ?_⟩
+  have hreach : ∀ i o, Reach s i o → Held s o → Reach s' i o := fun i o hr hal =>
+    reach_step s s' t ha hb hn hs i o hr hal
+  refine ⟨binv_uniq s s' t ha hb hn hs, binv_tr1 s s' t ha hb hn hs, ?_, ?_, ?_, ?_, ?_, ?_, ?_⟩
   · intro u i o h
     by_cases hu : u = t
     · subst hu; exact binv_tr2_self s s' u hs i o h
@@ -765,33 +867,35 @@ theorem binv_step (s s' : State) (t : Tid) (ha : AInv s) (hb : BInv s) (hf : FIn
       · exact know_nonholds _ _ hh
       · have hht := ht u hh hu
         obtain ⟨e2, _, _, e1⟩ := nonholder_effect3 s s' t hn hs hht
-        obtain ⟨ep, er⟩ := nonholder_refs s s' t hs hht
-        refine know_stable s s' _ e2 ep ?_ er hf.wb (hb.know u)
-        rcases e1 with e1 | ⟨i', o', hp, e1⟩
+        obtain ⟨ep, er, eo⟩ := nonholder_refs s s' t hn hs hht
+        refine know_stable s s' _ e2 ep ?_ er eo hf.wb (hb.know u)
+        rcases e1 with e1 | ⟨i', o', g', hp, e1⟩
         · exact Or.inl e1
-        · obtain ⟨h0, _, _, hg, he, _⟩ := hn.1 i' o' hp
+        · obtain ⟨h0, _, _, hg, he, _⟩ := hn.1 i' o' g' hp
           exact Or.inr ⟨i', o', e1, h0, hg u, he u, hb.refsPc t o' (by rw [hp]; simp [pcRefs])⟩
   · intro u i o h
     by_cases hu : u = t
-    · subst hu; exact binv_live_self s s' u hb hs i o h
+    · subst hu; exact binv_live_self s s' u hb hn hs i o h
     · rw [step_th_ne s s' t u hs hu] at h
-      exact reach_step s s' t ha hb hn hs i o (hb.live u i o h) (hlive u i o h)
+      exact hreach i o (hb.live u i o h) (hlive u i o h)
   · intro u i o h
     by_cases hu : u = t
     · subst hu
-      rcases outs_effect s s' u hs i o h with h | ⟨hp, hg⟩ | h | ⟨hp, hg, hal⟩
-      · exact reach_step s s' u ha hb hn hs i o (hb.outs u i o h) (houts u i o h)
-      · -- probe hit: the step itself takes the reference
-        have : Reach s i o := Or.inl hg
-        simp only [step, hp, hg] at hs
-        injection hs with hs; subst hs
-        unfold Reach at *; simpa using this
-      · exact reach_step s s' u ha hb hn hs i o (hb.live u i o h) (hlive u i o h)
+      rcases outs_effect s s' u hs i o h with h | ⟨hp, hg⟩ | h | ⟨hp, hg, hal⟩ | ⟨g, m, hp, hne, hm', hg⟩
+      · exact hreach i o (hb.outs u i o h) (houts u i o h)
+      · -- probe hit on the current dict: the step itself takes the reference
+        obtain ⟨_, e1, e2, e3, e4⟩ := probe_refs s s' u hs i o hp hg
+        unfold Reach; rw [e1]; exact Or.inl hg
+      · exact hreach i o (hb.live u i o h) (hlive u i o h)
       · -- unlocked weak probe (doCache = False) found the instance alive
         have e := (nprobe_step s s' u hs i o hp hg hal).1
         exact Or.inr (Or.inl (by rw [e]; exact hg))
+      · -- probe hit on an abandoned dict (the attribute was rebound after the load)
+        obtain ⟨_, e1, e2, e3, e4⟩ := stale_probe_step s s' u hs i o g m hp hne hm' hg
+        have := hb.oreach m (mem_odicts_of_oget _ _ _ hm') i o hg
+        unfold Reach at *; rw [e1, e2, e3, e4]; exact this
     · rw [step_th_ne s s' t u hs hu] at h
-      exact reach_step s s' t ha hb hn hs i o (hb.outs u i o h) (houts u i o h)
+      exact hreach i o (hb.outs u i o h) (houts u i o h)
   · intro u
     by_cases hu : u = t
     · subst hu; exact binv_refsPc_self s s' u hb hs
@@ -800,13 +904,24 @@ theorem binv_step (s s' : State) (t : Tid) (ha : AInv s) (hb : BInv s) (hf : FIn
   · intro u i o h
     by_cases hu : u = t
     · subst hu
-      rcases outs_effect s s' u hs i o h with h | ⟨hp, hg⟩ | h | ⟨hp, hg, hal⟩
+      rcases outs_effect s s' u hs i o h with h | ⟨hp, hg⟩ | h | ⟨hp, hg, hal⟩ | ⟨g, m, hp, hne, hm', hg⟩
       · exact refs_mono s s' u hs o (hb.refsOuts u i o h)
-      · exact probe_refs s s' u hs i o hp hg
+      · exact (probe_refs s s' u hs i o hp hg).1
       · exact refs_mono s s' u hs o (hb.refsPc u o (livePc_pcRefs _ i o h))
       · exact (nprobe_step s s' u hs i o hp hg hal).2
+      · exact (stale_probe_step s s' u hs i o g m hp hne hm' hg).1
     · rw [step_th_ne s s' t u hs hu] at h
       exact refs_mono s s' t hs o (hb.refsOuts u i o h)
+  · -- what an abandoned dict holds was copied to expiredCache before the rebinding
+    intro m hm' i o hg
+    rcases odicts_step s s' t hn hs m hm' with h | ⟨hp, e⟩
+    · exact hreach i o (hb.oreach m h i o hg) (Or.inr (Or.inr ((mem_ovals _ _).2 ⟨m, h, mem_avals_of_aget _ _ _ hg⟩)))
+    · subst e
+      have hk := hb.know t
+      rw [hp] at hk
+      simp only [step, hp] at hs
+      injection hs with hs; subst hs
+      exact Or.inr (Or.inl (by simpa using hk i o hg))
 
 /-- all layers along a schedule (programs without create) -/
 theorem inv_run (s : State) (sched : List Tid) (ha : AInv s) (hb : BInv s) (hf : FInv s) (hm : MdInv s)
